@@ -2,6 +2,9 @@ package main
 
 import (
 	"encoding/json"
+	"runtime"
+	"runtime/debug"
+	"strings"
 	"fmt"
 	"reflect"
 
@@ -15,9 +18,13 @@ func deepCopy(v any) any {
 	case map[string]any:
 		m := make(map[string]any, len(t))
 		for k, x := range t {
-			m[k] = deepCopy(x)
+			m[strings.Clone(k)] = deepCopy(x)
 		}
 		return m
+	case string:
+		// a Go string is only immutable if nobody writes to the memory behind it: clone the
+		// bytes so that the copy really is independent of whatever the original aliases
+		return strings.Clone(t)
 	case []any:
 		s := make([]any, len(t))
 		for i, x := range t {
@@ -88,7 +95,19 @@ func c03Case(comp bs.CompressionType, chunk int, dupKeys bool, twice ...bool) Ca
 	}
 	defer w.Close()
 	var rows []map[string]any
-	for _, r := range alphaRows() {
+	alphabet := alphaRows()
+	if len(twice) > 1 && twice[1] {
+		// blocks of 33-64 MiB uncompressed (beyond the default row group size and in the largest
+		// size class of the scan buffer pool): 36 rows of ~1 MiB of plain text each per block
+		alphabet = nil
+		for b := 0; b < 2; b++ {
+			for i := 0; i < 36; i++ {
+				line := strings.Repeat(fmt.Sprintf("blk%d row%02d lorem ipsum ", b, i), 1<<20/24)
+				alphabet = append(alphabet, map[string]any{"id": fmt.Sprintf("%d-%02d", b, i), "body": line, "nested": map[string]any{"k": line[:1000]}})
+			}
+		}
+	}
+	for _, r := range alphabet {
 		sr, err := mkStored(r, nil)
 		if err != nil {
 			continue
@@ -120,6 +139,12 @@ func c03Case(comp bs.CompressionType, chunk int, dupKeys bool, twice ...bool) Ca
 		var f map[string]any
 		json.Unmarshal([]byte(w.Rows[i].Info.CanonFirst), &f)
 		wantFirst = append(wantFirst, f)
+	}
+	if len(twice) > 1 && twice[1] {
+		// sync.Pool is emptied by the garbage collector: keep it from running while the buffers
+		// of the first scans wait in the pool, so that later scans really get them back
+		old := debug.SetGCPercent(-1)
+		defer func() { debug.SetGCPercent(old); runtime.GC() }()
 	}
 	check := func(phase string) []map[string]any {
 		qr := w.Query(nil)
@@ -153,7 +178,15 @@ func c03Case(comp bs.CompressionType, chunk int, dupKeys bool, twice ...bool) Ca
 	for _, m := range second.Maps {
 		scribble(m)
 	}
-	for _, q := range []*bs.Query{bs.NewQuery().Field("a").Build(), bs.NewQuery().Token("x").Build(), bs.NewQuery().FieldRegex("a", ".").Build(), nil} {
+	later := []*bs.Query{bs.NewQuery().Field("a").Build(), bs.NewQuery().Token("x").Build(), bs.NewQuery().FieldRegex("a", ".").Build(), nil}
+	if len(twice) > 1 && twice[1] {
+		// scans of one block at a time, alternating: a buffer that held one block is handed out
+		// again for the other
+		for i := 0; i < 6; i++ {
+			later = append(later, bs.NewQuery().Token(fmt.Sprintf("blk%d", i%2)).Build())
+		}
+	}
+	for _, q := range later {
 		qr := w.Query(q)
 		res.Evals += len(qr.Maps)
 		for _, m := range qr.Maps {
@@ -165,7 +198,7 @@ func c03Case(comp bs.CompressionType, chunk int, dupKeys bool, twice ...bool) Ca
 	}
 	for i, m := range first {
 		if !reflect.DeepEqual(m, copies[i]) {
-			res.Findings = append(res.Findings, fnd("c03-retained-row-changed", "C03: a retained row changed after later queries / mutation of another result: now %s, was %s", canonMap(m), canonMap(copies[i].(map[string]any))))
+			res.Findings = append(res.Findings, fnd("c03-retained-row-changed", "C03: a retained row changed after later queries / mutation of another result: now %s, was %s", trunc(canonMap(m), 300), trunc(canonMap(copies[i].(map[string]any)), 300)))
 			break
 		}
 	}
@@ -182,7 +215,7 @@ func c03Case(comp bs.CompressionType, chunk int, dupKeys bool, twice ...bool) Ca
 		bad := false
 		for j := i + 1; j < len(third.Maps); j++ {
 			if !reflect.DeepEqual(third.Maps[j], tcopies[j]) {
-				res.Findings = append(res.Findings, fnd("c03-rows-share-state", "C03: overwriting returned row %s changed another row of the same result: now %s, was %s", canonMap(tcopies[i].(map[string]any)), canonMap(third.Maps[j]), canonMap(tcopies[j].(map[string]any))))
+				res.Findings = append(res.Findings, fnd("c03-rows-share-state", "C03: overwriting returned row %s changed another row of the same result: now %s, was %s", trunc(canonMap(tcopies[i].(map[string]any)), 200), trunc(canonMap(third.Maps[j]), 300), trunc(canonMap(tcopies[j].(map[string]any)), 300)))
 				bad = true
 				break
 			}
@@ -250,10 +283,11 @@ func init() {
 				c := c
 				cs = append(cs, Case{ID: fmt.Sprintf("roundtrip/%s/adjacent-duplicates", c), Run: func() CaseResult { return c03Case(c, 50, false, true) }})
 			}
+			cs = append(cs, Case{ID: "roundtrip/none/huge-blocks", Run: func() CaseResult { return c03Case(bs.CompressionNone, 36, false, false, true) }})
 			cs = append(cs, Case{ID: "roundtrip/duplicate-keys", Run: func() CaseResult { return c03Case(bs.CompressionNone, 1000, true) }})
 			cs = append(cs, Case{ID: "nil-row", Run: c03NilRow})
 			return cs
 		},
-		Rule: "every row of the row alphabet that encoding/json decodes into an object, on every compression and two block splits; returned maps are paired one-to-one with json.Unmarshal(json.Marshal(row)) by reflect.DeepEqual; independence: retained rows are compared with deep copies after another result set was overwritten recursively and four further queries reused the scan buffers; the rows of one result set are overwritten one at a time and all not yet overwritten rows must stay unchanged; the alphabet is also stored with every row twice in a row (byte-identical neighbours)",
+		Rule: "every row of the row alphabet that encoding/json decodes into an object, on every compression and two block splits; returned maps are paired one-to-one with json.Unmarshal(json.Marshal(row)) by reflect.DeepEqual; independence: retained rows are compared with deep copies after another result set was overwritten recursively and four further queries reused the scan buffers; the rows of one result set are overwritten one at a time and all not yet overwritten rows must stay unchanged; the alphabet is also stored with every row twice in a row (byte-identical neighbours); one case stores two uncompressed blocks of ~38 MiB (the largest pooled buffer class)",
 	}
 }
